@@ -64,12 +64,21 @@ struct Ctx {
     long member(long &x) { dsim::cell_add(CONV_CALLS, 1); if (x == SRC + 13) throw vs::TestError(4444); return x + add; }
     cocls::suspend_point<void> member_p(long &x, cocls::promise<long> &p) { dsim::cell_add(CONV_CALLS, 1); if (x == SRC + 13) throw vs::TestError(4444); return p(x + 2 * add); }
     long from_void() { dsim::cell_add(CONV_CALLS, 1); return 99; }
+    long seen = -1;                                                              // what the value-less converters were handed
+    void member_void(long &x) { dsim::cell_add(CONV_CALLS, 1); if (x == SRC + 13) throw vs::TestError(4444); seen = x; }
+    void from_void_void() { dsim::cell_add(CONV_CALLS, 1); seen = 98; }
+    cocls::suspend_point<void> from_void_p(cocls::promise<long> &p) { dsim::cell_add(CONV_CALLS, 1); return p(97L); }
     cocls::future_conv<&Ctx::member> c_member{this};
     cocls::future_conv<&Ctx::member_p> c_member_p{this};
     cocls::future_conv<&free_conv> c_free;
     cocls::future_conv<&free_conv_ctx> c_free_ctx{this};
     cocls::future_conv<&Ctx::from_void> c_from_void{this};
+    cocls::future_conv<&Ctx::member_void> c_member_void{this};
+    cocls::future_conv<&Ctx::from_void_void> c_from_void_void{this};
+    cocls::future_conv<&Ctx::from_void_p> c_from_void_p{this};
 };
+long g_free_seen = -1;
+void free_to_void(long &x) { dsim::cell_add(CONV_CALLS, 1); if (x == SRC + 13) throw vs::TestError(4444); g_free_seen = x; }
 long free_conv_ctx(long &x, Ctx *c) { dsim::cell_add(CONV_CALLS, 1); if (x == SRC + 13) throw vs::TestError(4444); return x - c->add; }
 
 struct Handler {
@@ -80,7 +89,7 @@ struct Handler {
 }
 
 void dsim_scenario() {
-    int adapter = dsim::choose(15);
+    int adapter = dsim::choose(20);
     int nops = 1 + dsim::choose(2);           // consecutive operations on a reused adapter / storage
     int outcome[2], timing[2]; long val[2];
     for (int i = 0; i < nops; i++) { outcome[i] = dsim::choose(3); timing[i] = dsim::choose(3); val[i] = SRC + (dsim::choose(6) == 5 ? 13 : i + 1); }
@@ -123,20 +132,44 @@ void dsim_scenario() {
                 if (exp_outcome == O_VALUE) { if (exp_val == SRC + 13) { exp_outcome = O_EXC; exp_val = 4444; } else exp_val = adapter == 6 ? exp_val + 7 : adapter == 7 ? exp_val + 14 : adapter == 8 ? exp_val * 2 : exp_val - 7; }
                 else if (exp_outcome == O_DROP) { /* broken promise of the source surfaces as await_canceled_exception */ }
                 break; }
-            case 10: {  // converter from future<void>
+            case 15: {  // the two-step form: conv(std::move(promise)) << source
+                cocls::future<long> out; auto op = out.get_promise();
+                ctx.c_member(std::move(op)) << [&] { return src.work(); };
+                src.finish(); out.sync();
+                classify(i, [&] { return out.value(); });
+                if (exp_outcome == O_VALUE) { if (exp_val == SRC + 13) { exp_outcome = O_EXC; exp_val = 4444; } else exp_val += 7; }
+                break; }
+            case 16: case 17: {   // converters without a result: the outer future<void> completes when the converter has seen the value
+                cocls::future<void> out; ctx.seen = -1; g_free_seen = -1;
+                cocls::future_conv<&free_to_void> c_free_void;
+                if (adapter == 16) out << [&] { return ctx.c_member_void << [&] { return src.work(); }; };
+                else out << [&] { return c_free_void << [&] { return src.work(); }; };
+                src.finish(); out.sync();
+                classify(i, [&] { out.value(); return adapter == 16 ? ctx.seen : g_free_seen; });
+                if (exp_outcome == O_VALUE && exp_val == SRC + 13) { exp_outcome = O_EXC; exp_val = 4444; }
+                break; }
+            case 10: case 18: case 19: {  // converters from future<void>
                 Source *s = &src;
                 cocls::promise<void> vp; std::thread vthr;
-                cocls::future<long> out;
-                out << [&] { return ctx.c_from_void << [&]() -> cocls::future<void> {
+                auto vsrc = [&]() -> cocls::future<void> {
                     return [&](cocls::promise<void> p) {
                         auto res = [s](cocls::promise<void> &q) { if (s->outcome == O_VALUE) q(); else if (s->outcome == O_EXC) q(vs::make_err(s->val)); else q(cocls::drop); };
                         if (s->timing == T_BEFORE) res(p); else if (s->timing == T_LATER) vp = std::move(p); else vthr = std::thread([res, q = std::move(p)]() mutable { res(q); });
-                    }; }; };
-                if (vp) { if (outcome[i] == O_VALUE) vp(); else if (outcome[i] == O_EXC) vp(vs::make_err(val[i])); else vp(cocls::drop); }
-                if (vthr.joinable()) vthr.join();
-                out.sync();
-                classify(i, [&] { return out.value(); });
-                if (exp_outcome == O_VALUE) exp_val = 99;
+                    }; };
+                auto finish_v = [&] { if (vp) { if (outcome[i] == O_VALUE) vp(); else if (outcome[i] == O_EXC) vp(vs::make_err(val[i])); else vp(cocls::drop); } if (vthr.joinable()) vthr.join(); };
+                if (adapter == 19) {       // void -> void
+                    cocls::future<void> out; ctx.seen = -1;
+                    out << [&] { return ctx.c_from_void_void << vsrc; };
+                    finish_v(); out.sync();
+                    classify(i, [&] { out.value(); return ctx.seen; });
+                    if (exp_outcome == O_VALUE) exp_val = 98;
+                } else {
+                    cocls::future<long> out;
+                    if (adapter == 10) out << [&] { return ctx.c_from_void << vsrc; }; else out << [&] { return ctx.c_from_void_p << vsrc; };
+                    finish_v(); out.sync();
+                    classify(i, [&] { return out.value(); });
+                    if (exp_outcome == O_VALUE) exp_val = adapter == 10 ? 99 : 97;
+                }
                 break; }
             case 13: case 14: {   // callback_await on a future<void>: await_result<void> is read through get(), operator bool and operator!
                 Source *s = &src;
@@ -170,7 +203,7 @@ void dsim_scenario() {
                 src.finish();
                 break; }
             }
-            expect(i, exp_outcome, exp_val, adapter >= 6 && adapter <= 10 ? "future_conv" : "callback adapter");
+            expect(i, exp_outcome, exp_val, (adapter >= 6 && adapter <= 10) || adapter >= 15 ? "future_conv" : "callback adapter");
         }
         if (dsim::cell_get(ST_ALLOC) != dsim::cell_get(ST_FREE)) dsim::fail("C18.storage_balance", "counting storage: %ld blocks handed out, %ld returned", dsim::cell_get(ST_ALLOC), dsim::cell_get(ST_FREE));
     }
